@@ -1242,10 +1242,18 @@ theorem RelR_sub_of_eq (X : Bool → R (List Asg)) (h : X false = X true) : RelR
   intro L hL
   have h0 := hL false
   rw [h, hL true] at h0
-  cases h0
   show (L false).Sublist (L true)
-  rw [← ‹L true = L false›]
+  generalize L false = l0 at h0
+  generalize L true = l1 at h0
+  cases h0
   exact List.Sublist.refl _
+
+theorem evalFields_single_edge_single {env : SpecEnv} {fuel : Nat} {owners : List Name} {nm : Name}
+    {ps : Params} {k : Kind} {c : QNode} {v : Option VertexId} {a : Asg} {L : List Asg} :
+    evalFields env fuel owners [.edge nm ps k c] v [a] = .ok L ↔
+      evalEdge env fuel owners nm ps k c v a = .ok L := by
+  rw [evalFields_single_edge, flatMapR_singleton]
+  cases evalEdge env fuel owners nm ps k c v a <;> simp
 
 theorem flatMapR_sublist {α β : Type} (f : α → R (List β)) {l0 l1 : List α} (h : l0.Sublist l1)
     {L0 L1 : List β} (h0 : flatMapR f l0 = .ok L0) (h1 : flatMapR f l1 = .ok L1) : L0.Sublist L1 := by
@@ -1275,30 +1283,34 @@ theorem recurse_local (env : SpecEnv) (j : Nat) {d0 d1 : Nat} (hd : d0 ≤ d1) (
       · intro L hL
         apply this L
         intro i
-        cases i <;> exact hL _
-      · intro a'
+        cases i with
+        | false => simpa [pick, modField] using hL false
+        | true => simpa [pick, modField] using hL true
+      · intro a' L hL
+        have h0 := hL false
+        have h1 := hL true
+        simp only [pick] at h0 h1
+        show (L false).Sublist (L true)
+        generalize L false = l0 at h0 ⊢
+        generalize L true = l1 at h1 ⊢
+        have same : setDepthF d0 fld = setDepthF d1 fld → l0.Sublist l1 := by
+          intro e; rw [e, h1] at h0; cases h0; exact List.Sublist.refl _
         cases fld with
-        | prop nm dirs => exact RelR_sub_of_eq _ rfl
+        | prop nm dirs => exact same rfl
         | edge nm ps k c =>
           cases k with
           | recurse d =>
-            simp only [setDepthF, evalFields_single_edge]
-            apply RelR_flatMapR
-            intro a'' _
-            simp only [evalEdge_recurse]
+            simp only [setDepthF, evalFields_single_edge_single, evalEdge_recurse] at h0 h1
             cases v with
-            | none => exact RelR_sub_of_eq _ rfl
+            | none => simp only at h0 h1; rw [h1] at h0; cases h0; exact List.Sublist.refl _
             | some x =>
-              intro L hL
-              have h0 := hL false
-              have h1 := hL true
-              simp only [pick] at h0 h1
+              simp only at h0 h1
               refine flatMapR_sublist _ ?_ h0 h1
               simp only [reachDecl]
               exact reach_mono _ _ _ hd _
-          | plain => exact RelR_sub_of_eq _ rfl
-          | optional => exact RelR_sub_of_eq _ rfl
-          | fold fds => exact RelR_sub_of_eq _ rfl
+          | plain => exact same rfl
+          | optional => exact same rfl
+          | fold fds => exact same rfl
 
 theorem asgs_recurse_mono (env : SpecEnv) (q : Query) (p : Path) (j : Nat) {d0 d1 : Nat}
     (hd : d0 ≤ d1) (hp : NoFoldPath p q.root) (as0 as1 : List Asg)
@@ -1380,35 +1392,41 @@ theorem optional_local (env : SpecEnv) (j : Nat) (t : QNode) (fuel : Nat) (v : O
         intro i
         cases i with
         | false =>
-          have := hL false
-          simp only [pick, id] at this ⊢
-          rw [modify_eq_self fields j _ (fun _ _ => rfl)]; exact this
-        | true => exact hL true
-      · intro a'
+          have h := hL false
+          have e : fields.modify j id = fields := modify_eq_self _ _ _ (fun _ _ => rfl)
+          simp only [pick, id] at h ⊢
+          rw [e]; exact h
+        | true => simpa [pick, modField] using hL true
+      · intro a' L hL
+        have h0 := hL false
+        have h1 := hL true
+        simp only [pick, id] at h0 h1
+        show (L false).Sublist (L true)
+        generalize L false = l0 at h0 ⊢
+        generalize L true = l1 at h1 ⊢
+        have same : fld = makeOptionalF fld → l0.Sublist l1 := by
+          intro e; rw [← e, h0] at h1; cases h1; exact List.Sublist.refl _
         cases fld with
-        | prop nm dirs => exact RelR_sub_of_eq _ rfl
+        | prop nm dirs => exact same rfl
         | edge nm ps k c =>
           cases k with
           | plain =>
-            simp only [pick, id, makeOptionalF, evalFields_single_edge]
-            apply RelR_flatMapR
-            intro a'' _
+            simp only [makeOptionalF, evalFields_single_edge_single, evalEdge_plain,
+              evalEdge_optional] at h0 h1
             cases v with
             | none =>
-              apply RelR_sub_of_eq
-              simp [pick, evalEdge_plain, evalEdge_optional, edgeNbrs, Data.nbrsOpt]
+              simp only [edgeNbrs, Data.nbrsOpt, List.isEmpty_nil, if_true] at h0 h1
+              rw [h1] at h0; cases h0; exact List.Sublist.refl _
             | some x =>
+              simp only at h0 h1
               by_cases hn : (edgeNbrs env (ownersOf env (some x)) nm ps (some x)).isEmpty = true
-              · intro L hL
-                have h0 := hL false
-                simp only [pick, evalEdge_plain, List.isEmpty_iff.mp hn, flatMapR, R.ok.injEq] at h0
-                show (L false).Sublist (L true)
+              · simp only [List.isEmpty_iff.mp hn, flatMapR, R.ok.injEq] at h0
                 rw [← h0]; exact List.nil_sublist _
-              · apply RelR_sub_of_eq
-                simp [pick, evalEdge_plain, evalEdge_optional, hn]
-          | recurse d => exact RelR_sub_of_eq _ rfl
-          | optional => exact RelR_sub_of_eq _ rfl
-          | fold fds => exact RelR_sub_of_eq _ rfl
+              · simp only [hn, Bool.false_eq_true, if_false] at h1
+                rw [h1] at h0; cases h0; exact List.Sublist.refl _
+          | recurse d => exact same rfl
+          | optional => exact same rfl
+          | fold fds => exact same rfl
 
 theorem asgs_optional_keeps (env : SpecEnv) (q : Query) (p : Path) (j : Nat)
     (hp : NoFoldPath p q.root) (as as' : List Asg) (h : asgs env q = .ok as)
